@@ -213,6 +213,19 @@ def r3(rr, repo):
             for c in q.calls_in(fn):
                 if isinstance(c.func, ast.Attribute) and c.func.attr == 'sub' and isinstance(c.func.value, ast.Name):
                     subs[fn.name] = (c.func.value.id, c.args[0].value if c.args and isinstance(c.args[0], ast.Constant) else None, c)
+    # every occurrence in a text is masked: the helper substitutes ALL matches (pattern.sub without a count); a search()/match() and a splice deals with the first one only -
+    # a refused configuration logged as given, an unsplit comma list or an exception text with two URLs holds more than one credential
+    for fn in mod.tree.body:
+        if isinstance(fn, ast.FunctionDef) and fn.name in ('hide_uri_users_and_pwds', 'hide_uri_pwds'):
+            calls = [c for c in q.calls_in(fn) if isinstance(c.func, ast.Attribute) and isinstance(c.func.value, ast.Name) and c.func.value.id in pats]
+            first_only = [c for c in calls if c.func.attr in ('search', 'match', 'fullmatch')] + \
+                         [c for c in calls if c.func.attr == 'sub' and (len(c.args) >= 3 or any(k.arg == 'count' for k in c.keywords)) and not (len(c.args) >= 3 and isinstance(c.args[2], ast.Constant) and c.args[2].value == 0)]
+            all_subs = [c for c in calls if c.func.attr in ('sub', 'subn') and c not in first_only]
+            returns_sub = any(isinstance(r, ast.Return) and r.value in all_subs for r in ast.walk(fn))
+            if first_only and not (returns_sub and len([r for r in ast.walk(fn) if isinstance(r, ast.Return)]) == 1):
+                rr.ob(f'{fn.name} masks every credential in the text, not only the first', False, mod, first_only[0], witness=f'{U(first_only[0])[:70]} decides what is returned', key=f'masks-every-occurrence|{fn.name}')
+            elif all_subs:
+                rr.ob(f'{fn.name} masks every credential in the text, not only the first', True, mod, all_subs[0], witness=U(all_subs[0])[:70], key=f'masks-every-occurrence|{fn.name}')
     rr.floor('sanitizer functions', len(subs), 2, mod, mod.tree)
     for fname, (pname, repl, call) in subs.items():
         if pname not in pats:
